@@ -24,7 +24,7 @@ pub static DEF: PropDef = PropDef {
     id: "C18",
     level: "exploration",
     engine: "query",
-    rule: "one run = a real Ingester (one flush per write, or - flush threshold 4 or 9 rows - several writes per flush; published on the legacy and the topic channel) and a real QueryNode; one streaming SQL subscription (legacy query_stream or topic-filtered query_stream_filtered) with a WHERE clause generated from the supported family (comparisons in both operand orders on string / nullable string / integer / unsigned / float columns and on the timestamp column itself, negative and fractional literals, exact float equality, AND, OR, nesting) plus 1..3 raw topic subscriptions with generated filter expressions (All / Shard / Tenant / Metrics / And / Or nests); historical data is ingested before, 4..12 batches (1..6 rows, 1..3 metrics per batch, nulls, either timestamp type, timestamps before and after the merge point but never inside the subscription call's own interval) are flushed after the call returned, interleaved by the scheduler with the subscription's forwarding task; distinct = distinct (WHERE text, topic filters, batch shapes) hash; non-trivial = completed AND the expected live result is non-empty AND at least one row was expected to be filtered out",
+    rule: "one run = a real Ingester (one flush per write, or - flush threshold 4 or 9 rows - several writes per flush; published on the legacy and the topic channel) and a real QueryNode; one streaming SQL subscription (legacy query_stream or topic-filtered query_stream_filtered; in half of the runs the same statement also as a live subscription over the node's WebSocket endpoint /api/v1/stream, real axum router + hyper + tungstenite over an in-memory duplex) with a WHERE clause generated from the supported family (comparisons in both operand orders on string / nullable string / integer / unsigned / float columns and on the timestamp column itself, negative and fractional literals, exact float equality, AND, OR, nesting) plus 1..3 raw topic subscriptions with generated filter expressions (All / Shard / Tenant / Metrics / And / Or nests); historical data is ingested before, 4..12 batches (1..6 rows, 1..3 metrics per batch, nulls, either timestamp type, timestamps before and after the merge point but never inside the subscription call's own interval) are flushed after the call returned, interleaved by the scheduler with the subscription's forwarding task; distinct = distinct (WHERE text, topic filters, batch shapes) hash; non-trivial = completed AND the expected live result is non-empty AND at least one row was expected to be filtered out",
     quick_runs: 1500,
     thorough_runs: 10_000,
     run_cap_ms: 120_000,
@@ -257,6 +257,7 @@ fn scen(_spec: RunSpec) -> ScenFut {
         let shards: Vec<String> = ["cpu", "mem", "disk", "net"].iter().map(|m| shard_of(m, t_live_base)).collect();
         let sub_tf = if use_filtered { gen_tf(0, &shards) } else { TF::All };
         let qn = if use_filtered { qn.with_topic_filter(ing.subscribe_filtered(sub_tf.to_real()).await) } else { qn };
+        let qn = Arc::new(qn);
         let t_inv = sim::wall_ns();
         let rx = if use_filtered { qn.query_stream_filtered(&sql).await } else { qn.query_stream(&sql).await };
         let t_ret = sim::wall_ns();
@@ -266,6 +267,25 @@ fn scen(_spec: RunSpec) -> ScenFut {
                 sim::violation("C18/subscription-failed", format!("{sql}: {e}"));
                 return;
             }
+        };
+        // half of the runs: the same statement also over the node's WebSocket endpoint ({"query": .., "live": true}),
+        // through the real router (a streaming query of another client; no topic filter there)
+        let ws_got = if sim::w_bool(50) {
+            let router = cardinalsin::api::build_http_router(ing.clone(), qn.clone());
+            match super::flight::websocket_subscribe(router, &sql).await {
+                Ok(g) => {
+                    // the handler answers the historical part and subscribes; nothing is written before it is idle
+                    tokio::time::sleep(Duration::from_millis(50)).await;
+                    sim::probe("websocket-subscription");
+                    Some(g)
+                }
+                Err(e) => {
+                    sim::violation("C18/subscription-failed", format!("websocket: {sql}: {e}"));
+                    return;
+                }
+            }
+        } else {
+            None
         };
         // raw topic subscriptions
         let n_raw = sim::w_range(1, 3);
@@ -388,6 +408,44 @@ fn scen(_spec: RunSpec) -> ScenFut {
             );
         } else if live_received != expected_batches {
             sim::violation("C18/live-tail-differs/order-or-batching", format!("{sql}: expected batches {:?} in flush order, delivered {:?}", expected_batches, live_received));
+        }
+        // ---- oracle: the WebSocket subscription (same statement, no topic filter) ----
+        if let Some(g) = ws_got {
+            let got: Vec<Vec<i64>> = g.lock().unwrap().clone();
+            if got.iter().any(|b| b == &vec![i64::MIN]) {
+                sim::violation("C18/subscription-failed", format!("websocket: {sql}: the endpoint answered with an error message"));
+            } else {
+                let mut want: Vec<Vec<i64>> = Vec::new();
+                for (rows, b, _, _) in &live {
+                    if let Ok(w) = reference(&sql, b).await {
+                        let ok_ids: Vec<i64> = w.iter().flat_map(ids_of).collect();
+                        let mut exp: Vec<i64> = rows.iter().filter(|r| r.ts >= merge_lo && ok_ids.contains(&r.id)).map(|r| r.id).collect();
+                        exp.sort();
+                        if !exp.is_empty() {
+                            want.push(exp);
+                        }
+                    }
+                }
+                let got_live: Vec<Vec<i64>> = got
+                    .iter()
+                    .map(|b| {
+                        let mut v: Vec<i64> = b.iter().cloned().filter(|id| *id > hist_max_id).collect();
+                        v.sort();
+                        v
+                    })
+                    .filter(|b| !b.is_empty())
+                    .collect();
+                if got_live != want {
+                    let w: Vec<i64> = want.iter().flatten().cloned().collect();
+                    let d: Vec<i64> = got_live.iter().flatten().cloned().collect();
+                    let unexpected: Vec<i64> = d.iter().filter(|i| !w.contains(i)).cloned().collect();
+                    let missing: Vec<i64> = w.iter().filter(|i| !d.contains(i)).cloned().collect();
+                    sim::violation(
+                        "C18/live-tail-differs/websocket",
+                        format!("{sql} over /api/v1/stream: expected live rows {:?}, delivered {:?} (missing {:?}, unexpected {:?})", want, got_live, missing, unexpected),
+                    );
+                }
+            }
         }
         // ---- oracle: raw topic subscriptions ----
         for (tf, got, h) in raws {
